@@ -540,7 +540,7 @@ def check_style_copy(task):
 
 
 # ------------------------------------------------------------------ unobserved cross-leaf histories
-PAIR_HISTORIES = ["ctor_kw;setter_nested", "ctor_dict;setter_nested", "ctor_kw;setter_flat", "setter_nested;setter_nested",
+PAIR_HISTORIES = ["ctor_dict+ctor_kw", "ctor_kw+ctor_dict", "plain;update_dict+kw", "ctor_kw;copy_dict+kw", "ctor_kw;setter_nested", "ctor_dict;setter_nested", "ctor_kw;setter_flat", "setter_nested;setter_nested",
                   "setter_flat;setter_nested", "ctor_kw+ctor_kw", "ctor_kw;copy_kw", "ctor_kw;read;update_kw",
                   "ctor_kw;read;setter_nested"]
 
@@ -580,6 +580,16 @@ def check_pairs(task):
                         o = factory(**{"style_" + usA: copy.deepcopy(cA)})
                     elif st == "ctor_dict":
                         o = factory(style=nested(leafA, copy.deepcopy(cA)))
+                    elif st == "ctor_dict+ctor_kw":     # nested dict and underscore keyword in ONE call
+                        o = factory(style=nested(leafA, copy.deepcopy(cA)), **{"style_" + usB: copy.deepcopy(cB)})
+                    elif st == "ctor_kw+ctor_dict":
+                        o = factory(style=nested(leafB, copy.deepcopy(cB)), **{"style_" + usA: copy.deepcopy(cA)})
+                    elif st == "plain":
+                        o = factory()
+                    elif st == "update_dict+kw":
+                        o.style.update(nested(leafA, copy.deepcopy(cA)), **{usB: copy.deepcopy(cB)})
+                    elif st == "copy_dict+kw":
+                        o = factory().copy(style=nested(leafA, copy.deepcopy(cA)), **{"style_" + usB: copy.deepcopy(cB)})
                     elif st == "ctor_kw+ctor_kw":
                         o = factory(**{"style_" + usA: copy.deepcopy(cA), "style_" + usB: copy.deepcopy(cB)})
                     elif st in ("setter_nested", "setter_flat"):
@@ -611,6 +621,58 @@ def check_pairs(task):
 
 
 
+# ------------------------------------------------------------------ resolution inside one show() call with several objects
+def check_pipeline(task):
+    """show() resolves the styles of all its objects in one pass (get_flatten_objects_properties_recursive). The style an
+    object gets there must be the one it gets alone, whatever other objects - of other families - are resolved before it."""
+    from magpylib._src.display.traces_utility import get_flatten_objects_properties_recursive as flat
+    from magpylib._src.style import get_style
+
+    _, famA, tier = task
+    if not hard_reset():
+        return {"harness": "cannot restore defaults baseline"}
+    root = f"display.style.{famA}"
+    leaves = [k[len(root) + 1:] for k in BASE() if k.startswith(root + ".")]
+    viols, n = [], 0
+    objs = {f: FAMILIES[f]() for f in FAMILIES}
+    names = list(objs)
+
+    def sig(style):
+        d = lin(style.as_dict())
+        d.pop("color", None)
+        d.pop("label", None)
+        return {k: norm(v) for k, v in d.items()}
+
+    for leaf in leaves:
+        hard_reset()
+        vals, _ = probe_values(lambda: getp(DS(), root), leaf, want=1)
+        hard_reset()
+        if not vals:
+            continue
+        try:
+            setp(DS(), root + "." + leaf, copy.deepcopy(vals[0][0]))
+        except Exception:
+            continue
+        alone = {f: sig(get_style(objs[f], DS())) for f in names}
+        lists = [(a, b) for a in names for b in names if a != b] + [tuple(names), tuple(reversed(names))]
+        for lst in lists:
+            n += 1
+            try:
+                res = flat(*[objs[f] for f in lst], colorsequence=["#111111", "#222222", "#333333"])
+            except Exception as e:
+                viols.append((f"pipeline-raises-{type(e).__name__}", [famA, leaf, list(lst)], str(e)[:100]))
+                continue
+            for f in lst:
+                got = sig(res[objs[f]]["style"])
+                bad = [k for k in alone[f] if got.get(k) != alone[f][k]]
+                if bad:
+                    viols.append((f"style-depends-on-other-objects-of-the-call:{f}", [famA, leaf, list(lst)],
+                                  f"{f} resolved with {list(lst)}: {bad[:3]} = {[got.get(k) for k in bad[:3]]}, alone {[alone[f][k] for k in bad[:3]]}"))
+                    break
+    hard_reset()
+    return {"transitions": n, "histories": n, "viols": viols}
+
+
 def leaves_of(fam):
     o = FAMILIES[fam]()
     out = []
@@ -629,6 +691,8 @@ def work(task):
             return check_style_copy(task)
         if task[0] == "pairs":
             return check_pairs(task)
+        if task[0] == "pipeline":
+            return check_pipeline(task)
         return check_leaf(task)
     except Exception as e:
         import traceback
@@ -646,6 +710,7 @@ def run(tier, seed):
         for leaf in leaves_of(fam):
             tasks.append((fam, leaf, tier))
     dtasks = [("default", k) for k in BASE()] + [("stylecopy", fam) for fam in FAMILIES]
+    dtasks += [("pipeline", fam, tier) for fam in ("magnet", "current", "sensor", "dipole", "triangle", "triangularmesh", "base")]
     dtasks += [("pairs", fam, leaf, tier) for fam in FAMILIES for leaf in leaves_of(fam)
                if not (tier == "quick" and fam in ("triangularmesh", "triangle"))]
     res = common.pmap(work, tasks + dtasks, chunk=1)
@@ -665,6 +730,8 @@ def run(tier, seed):
             samples.append({"family": t[0], "leaf": t[1], "values": r["values"], "invalid": r["bad"]})
         for kind, steps, detail in r["viols"]:
             tname = f"{t[0]}.{t[1]}" if t[0] != "pairs" else f"{t[1]}.{t[2]}"
+            if t[0] == "pipeline":
+                tname = f"{t[1]}.{steps[1]}"
             viols.append({"key": f"C20|{tname}|{kind}",
                           "what": f"{tname}: {kind} history={steps} {detail}",
                           "case": {"task": list(t), "kind": kind}, "observed": [kind, detail]})
